@@ -30,14 +30,14 @@ const VALS: &[&str] = &[
     "2147483647", "2147483648", "-2147483647", "-2147483648", "1e10", "1e9", "NaN", "inf", "-inf", "", "x", "None", "Normal", "Soft", "Drum",
     "Half speed", "Double speed", "half speed", "a b.mp3", "dir\\f.mp3", "1 // c", "1//c", "// c", "1,2,3", "10,20,30,40", "1,2", "1,2,3,4,5",
     "256,0,0", "-1,0,0", " 1 , 2 , 3 ", "1,x,3", "1,2,3 // c", "100,200,30,x", "+1,+2,+3", "a:b", "1:2", ": 5", "Re:Zero // x", "1e-320", "-0",
-    "0.1e1", "1.", ".5", "1,2,3,", "1,,3",
+    "0.1e1", "1.", ".5", "1,2,3,", "1,,3", "é", "日本語 title", "１", "1\u{a0}", "\u{feff}1", "٣",
 ];
 
 const EVENTS: &[&str] = &[
     "0,0,\"bg.jpg\",0,0", "0,0,bg2.png", "Background,0,\"b\\\\c.jpg\"", "1,0,\"v.mp4\"", "1,0,\"v.jpg\"", "Video,0,\"V.AVI\"", "Video,0,\"V.JPEG\"",
     "1,0,ab", "1,0,abc", "4,Background,Centre,\"sp.png\",320,240", "Sprite,a,b", "Sprite,a,b,\"s2.png\"", "2,100,200", "2,300,200", "Break,1.5,2.5",
     "2,x,5", "2,5,NaN", "2,5,1e10", "2,NaN,5", "2,5", "3,100,163,162,255", "5,1,0,\"a.wav\",50", "6,a,b,c", "9,9,9", "0,0", "", "0,0,\"q // c.jpg\"",
-    " 0,0,x.jpg", "0 ,0,y.jpg", "2, 100 , 200 ", "2,-0,0", "2,2147483647,2147483648", "0,0,\"\"", "0,0,", "1,0,\"x.m4v\"", "4,a,b,\"\"",
+    " 0,0,x.jpg", "0 ,0,y.jpg", "Video,0,\"видео\"", "1,0,日a", "1,0,é", "Video,0,\"x.mpé\"", "0,0,\"背景\"", "Sprite,a,b,\"🎵\"", "1,0,\"aé\"", "1,0,\"\u{fffd}i\"", "2, 100 , 200 ", "2,-0,0", "2,2147483647,2147483648", "0,0,\"\"", "0,0,", "1,0,\"x.m4v\"", "4,a,b,\"\"",
 ];
 
 fn fmt_kv(r: &mut Rng, k: &str, v: &str, variant: Option<usize>) -> String {
